@@ -193,6 +193,7 @@ harnesses! {
     e2n_c11_byron_attributes [native 0] => e2n::c11_byron_attributes;
     e2n_value_arith [native 0] => e2n::value_arith;
     e2n_c14_mint_builder_range [native 0] => e2n::c14_mint_builder_range;
+    e2n_c14_decimal_strings [native 0] => e2n::c14_decimal_strings;
     e2n_c18_cert_signers [native 0] => e2n::c18_cert_signers;
     e2n_builder_battery [native 0] => battery::builder_battery;
     e2n_c09_battery [native 0] => battery::c09_battery;
@@ -204,11 +205,13 @@ harnesses! {
     e2n_c13_spend_all [native 0] => battery::c13_spend_all;
     e2n_c16_sets [native 0] => battery::c16_sets;
     e2n_c18_declared_signers [native 0] => battery::c18_declared_signers;
+    e2n_c18_ref_inputs [native 0] => battery::c18_ref_inputs;
     e2n_c07_add_output [native 0] => battery::c07_add_output;
     e2n_c07_change_min_ada [native 0] => battery::c07_change_min_ada;
     e2n_c05_change_step [native 0] => battery::c05_change_step;
     e2n_c06_change_fee_widths [native 0] => battery::c06_change_fee_widths;
     e2n_c16_hash_eq [native 0] => battery::c16_hash_eq;
+    e2n_c16_ord_eq [native 0] => battery::c16_ord_eq;
     e2n_c08_first_input_fee [native 0] => battery::c08_first_input_fee;
     e2n_c19_return_min_ada [native 0] => battery::c19_return_min_ada;
     e2n_c16_repeat_build [native 0] => battery::c16_repeat_build;
